@@ -536,6 +536,11 @@ pub fn apply_special<S: Crystal>(state: &S, writes: &[(String, f64)]) -> Result<
     for (name, value) in writes {
         if let Some(i) = names.iter().position(|n| n == name) {
             let mut basis = state.generate_basis();
+            // (names were found on a clone; if the clone offers other parameters than the
+            // original - which C04/C08/C09 report - the write is simply skipped)
+            if i >= basis.len() {
+                continue;
+            }
             basis[i].set_value(*value);
             if state.score().map(|s| s.is_finite()).unwrap_or(false) {
                 kept += 1;
